@@ -169,7 +169,7 @@ impl Prop for C01 {
          independent reference reader which must find it well-formed (header totals exact, every table entry and string inside the file, tables aligned when the data is) and must recover the same content; \
          (c) for contents without c-strings a second, conforming image of the same content (pointer and label tables permuted, strings reordered, duplicated or shared incl. tail sharing) written by the \
          reference writer is parsed by mila and must give the same content. Bounded-exhaustive tier: all contents over lengths {0,4,6,8}, <=2 cells (9 annotation choices each), <=2 labels over 4 addresses x 3 names, both endians. \
-         Thin slices (1 case in 81; thorough 1 in 641) use large archives: up to 24 000 bytes / 1 200 annotated cells / 500 labels (thorough 300 000 / 70 000 / 5 000); 1 string in ~300 is 150 bytes..36 KiB long with double-byte characters on every alignment. Non-trivial: >=2 annotations of >=2 kinds, or a c-string, or a label at the end, or unaligned length. Distinct = distinct case value."
+         Thin slices (1 case in 81; thorough 1 in 1 281) use large archives: up to 24 000 bytes / 1 200 annotated cells / 500 labels (thorough 120 000 / 20 000 / 3 000); 1 string in ~300 is 150 bytes..36 KiB long with double-byte characters on every alignment. Non-trivial: >=2 annotations of >=2 kinds, or a c-string, or a label at the end, or unaligned length. Distinct = distinct case value."
             .into()
     }
     fn assumptions() -> Vec<String> {
@@ -191,9 +191,9 @@ impl Prop for C01 {
         let big = content_strategy(max_len, max_cells, max_labels, true);
         // a thin slice of large archives: thousands of bytes, hundreds to thousands of annotated cells and labels (tables and text
         // section beyond 8-bit and, in the thorough tier, 16-bit counts and offsets)
-        let (l_len, l_cells, l_labels) = tier.pick((24_000, 1_200, 500), (300_000, 70_000, 5_000));
+        let (l_len, l_cells, l_labels) = tier.pick((24_000, 1_200, 500), (120_000, 20_000, 3_000));
         let large = content_strategy(l_len, l_cells, l_labels, true);
-        (prop_oneof![60 * tier.pick(1u32, 8) => small, 20 * tier.pick(1u32, 8) => big, 1 => large], prop_oneof![1 => Just(0u64), 4 => any::<u64>()], any::<bool>(), any::<u64>())
+        (prop_oneof![60 * tier.pick(1u32, 16) => small, 20 * tier.pick(1u32, 16) => big, 1 => large], prop_oneof![1 => Just(0u64), 4 => any::<u64>()], any::<bool>(), any::<u64>())
             .prop_map(|(content, order_seed, detours, layout_seed)| Case { content, order_seed, detours, layout_seed })
             .boxed()
     }
